@@ -1873,7 +1873,7 @@ class LayerValidator:
         return LayerSpec(name, RecipeSet.LAYERS_SCM_SCHEMA.validate(_data)[0])
 
 class KeyValDefineValidator:
-    VAR_NAME = re.compile(r'^[A-Za-z_][A-Za-z0-9_]*$')
+    VAR_NAME = re.compile(r'^[A-Za-z_][A-Za-z0-9_]*\Z')
 
     def __init__(self, keyword, conditional=True):
         self.__keyword = keyword
@@ -4154,7 +4154,7 @@ class RecipeSet:
             self.__parseUserConfig(p + ".yaml")
 
     def __createSchemas(self):
-        varNameUseSchema = schema.Regex(r'^[A-Za-z_][A-Za-z0-9_]*$')
+        varNameUseSchema = schema.Regex(r'^[A-Za-z_][A-Za-z0-9_]*\Z')
         varFilterSchema = schema.Regex(r'^!?[][A-Za-z_*?][][A-Za-z0-9_*?]*$')
         recipeFilterSchema = schema.Regex(r'^!?[][0-9A-Za-z_.+:*?-]+$')
         toolNameSchema = schema.Regex(r'^[0-9A-Za-z_.+:-]+$')
